@@ -72,6 +72,26 @@ def run_part(ctx):
             ctx.violation({"module": "natmap", "kind": "not-reclaimed-under-concurrency", "where": "service/udp.go natmap.Close"},
                           "listener closed under traffic: Handle returned=%s, %d association(s) not removed, %d goroutine(s), %d descriptor(s) "
                           "above the baseline" % (e["returned"], e["unreclaimed"], e["leak_goroutines"], e["leak_fds"]), {"summary": s})
+    # one handler, two packet conns, two Handle goroutines (a service with two UDP listeners), no recorder at all: whatever the
+    # Handle loops share is watched by the race detector without any synchronisation added by the harness
+    for j in range(2 if q else 5):
+        d = ctx.sub("twol%d" % j)
+        env = U.capped_env({"GORACE": "halt_on_error=0", "GOMEMLIMIT": "3GiB"})
+        rc, out, err = U.run_capped([drv, "twol", "-norec", "-out", os.path.join(d, "t.ndjson"), "-summary", os.path.join(d, "s.json"),
+                                     "-seed", str(ctx.seed * 29 + j), "-clients", "150"], env=env, timeout=300)
+        reps = race_reports(err)
+        ctx.cov["natmap_c19"]["runs"] += 1
+        ctx.cov["natmap_c19"]["race_reports"] += len(reps)
+        ctx.cov["evaluations"] += 1
+        if reps:
+            where, text = reps[0]
+            ctx.violation({"module": "natmap", "kind": "data-race", "where": where},
+                          "the race detector reported an unsynchronised access in the repo's packages while two Handle loops of one packet "
+                          "handler ran concurrently: %s" % where,
+                          {"cmd": "udpnat(-race) twol -norec -clients 150 -seed %d" % (ctx.seed * 29 + j), "report": text, "all": [w for w, _ in reps]})
+            break
+        if rc != 0 and rc != 66:
+            raise vlib.Inconclusive("udpnat twol (-race) failed rc=%s: %s" % (rc, err[-1500:]))
     return ctx.cov["natmap_c19"]
 
 
